@@ -252,6 +252,15 @@ class Ctx:
         self.hist[name] = self.hist.get(name, 0) + k
 
 
+def known_match(k, key):
+    """A known-finding entry matches a failure key exactly (`match`) or by full regex (`match_re`)."""
+    if k.get("match") is not None and k["match"] == key:
+        return True
+    if k.get("match_re") and re.fullmatch(k["match_re"], key):
+        return True
+    return False
+
+
 def load_known():
     p = os.path.join(VERIF, "known_findings.json")
     if not os.path.exists(p):
@@ -338,7 +347,7 @@ def run_check(mod, pid, tier, seed, replay=None):
     # 5. verdict
     violations, known_hits = [], []
     for f in ctx.failures:
-        m = [k for k in known if k.get("match") == f["key"]]
+        m = [k for k in known if known_match(k, f["key"])]
         if m:
             known_hits.append((f, m[0]))
         else:
@@ -358,7 +367,7 @@ def run_check(mod, pid, tier, seed, replay=None):
                 sctx = Ctx(pid, "thorough", seed + 1)
                 mod.search(sctx, tie_diffs)
                 for f in sctx.failures:
-                    if not [k for k in known if k.get("match") == f["key"]]:
+                    if not [k for k in known if known_match(k, f["key"])]:
                         violations.append(f)
                 ctx.oracle_evals += sctx.oracle_evals
             except Exception:
